@@ -116,10 +116,12 @@ func (c *Ctx) perFileState() *perFileResult {
 	}
 	res.found = true
 	recv := call.Common().Args[0]
-	if al, ok := recv.(*ssa.Alloc); ok && inLoop(al.Block()) {
-		res.fresh = true
-		res.why = "fresh decoder per chained file"
-		return res
+	if c.freshDecoderValue(recv, fn) {
+		if ins, ok := recv.(ssa.Instruction); ok && inLoop(ins.Block()) {
+			res.fresh = true
+			res.why = "fresh decoder per chained file"
+			return res
+		}
 	}
 	if !inLoop(call.Block()) {
 		res.why = "decode is not called in a loop"
@@ -447,4 +449,36 @@ func (c *Ctx) isResetStore(st *ssa.Store) bool {
 		}
 	}
 	return !c.decodeReach[st.Parent()]
+}
+
+// freshDecoderValue: v is a decoder no earlier call or file has touched: a local allocation of
+// fn, or the result of a module function every return of which hands back an allocation made in
+// that very call (a constructor such as newDecoder(opts)).
+func (c *Ctx) freshDecoderValue(v ssa.Value, fn *ssa.Function) bool {
+	switch n := v.(type) {
+	case *ssa.Alloc:
+		return n.Parent() == fn
+	case *ssa.Call:
+		g := n.Common().StaticCallee()
+		if g == nil || fnPkgPath(g) != modPath || len(g.Blocks) == 0 {
+			return false
+		}
+		nret := 0
+		for _, b := range g.Blocks {
+			ret, ok := b.Instrs[len(b.Instrs)-1].(*ssa.Return)
+			if !ok {
+				continue
+			}
+			nret++
+			if len(ret.Results) != 1 {
+				return false
+			}
+			al, ok := ret.Results[0].(*ssa.Alloc)
+			if !ok || al.Parent() != g || !al.Heap {
+				return false
+			}
+		}
+		return nret > 0
+	}
+	return false
 }
